@@ -57,6 +57,9 @@ var registry = map[string]propDef{
 	"C10w": {"other", props.C10setwires},
 	"C19d": {"other", props.C19duality},
 	"C18g": {"other", props.C18guards},
+	"C18e": {"other", props.LoopErrors},
+	"C16e": {"other", props.LoopErrors},
+	"C18w": {"other", props.C18widths},
 	"C18r": {"other", props.C18rows},
 	"C18f": {"other", props.C18fields},
 	"C18y": {"other", props.C18layout},
@@ -76,6 +79,8 @@ var registry = map[string]propDef{
 	"C02i": {"other", props.C06kept},
 	"C10i": {"other", props.C10kept},
 	"C20i": {"other", props.C20kept},
+	"C20p": {"other", props.C06pack},
+	"C20o": {"other", props.C06kept},
 	"C17i": {"other", props.C17kept},
 	"C05i": {"other", props.C17kept},
 	"C11i": {"other", props.C11kept},
@@ -135,11 +140,14 @@ var registry = map[string]propDef{
 	"C17":  {"other", props.C17},
 	"C17p": {"other", props.C17pool},
 	"C17h": {"other", props.C17handle},
+	"C17x": {"other", props.C17explicit},
 	"C17u": {"other", props.C17puts},
 	"C01u": {"other", props.C17puts},
 	"C04h": {"other", props.C17handle},
 	"C18h": {"other", props.C17handle},
 	"C14v": {"other", props.C14valid},
+	"C14k": {"other", props.C14seen},
+	"C14x": {"other", props.C14typetext},
 	"C14t": {"other", props.C14types},
 	"C14b": {"other", props.C14bristol},
 	"C14g": {"other", props.C14gaterecord},
